@@ -416,51 +416,56 @@ class ColorValue(Value):
                 functiontype, raw, check = None, [], ''
                 HSL = False
 
-                for item in seq:
-                    try:
-                        type_ = item.value.type
-                    except AttributeError:
-                        # type of function, e.g. rgb(
-                        if item.type == 'FUNCTION':
-                            functiontype = item.value
-                            HSL = functiontype in ('hsl(', 'hsla(')
-                        continue
+                try:
+                    for item in seq:
+                        try:
+                            type_ = item.value.type
+                        except AttributeError:
+                            # type of function, e.g. rgb(
+                            if item.type == 'FUNCTION':
+                                functiontype = item.value
+                                HSL = functiontype in ('hsl(', 'hsla(')
+                            continue
 
-                    # save components
-                    if type_ == Value.NUMBER:
-                        raw.append(item.value.value)
-                        check += 'N'
-                    elif type_ == Value.PERCENTAGE:
-                        if HSL:
-                            # save as percentage fraction
-                            raw.append(item.value.value / 100.0)
-                        else:
-                            # save as real value of percentage of 255
-                            raw.append(int(255 * item.value.value / 100))
-                        check += 'P'
+                        # save components
+                        if type_ == Value.NUMBER:
+                            raw.append(item.value.value)
+                            check += 'N'
+                        elif type_ == Value.PERCENTAGE:
+                            if HSL:
+                                # save as percentage fraction
+                                raw.append(item.value.value / 100.0)
+                            else:
+                                # save as real value of percentage of 255
+                                raw.append(int(255 * item.value.value / 100))
+                            check += 'P'
 
-                if HSL and len(raw) < 3:
-                    # e.g. cut off by the end of the sheet, reported below
-                    rgba = raw
-                elif HSL:
-                    # convert to rgb
-                    # h is 360 based (circle)
-                    h, s, l_ = raw[0] / 360.0, raw[1], raw[2]
-                    # ORDER h l s !!!
-                    r, g, b = colorsys.hls_to_rgb(h, l_, s)
-                    # back to 255 based
-                    rgba = [
-                        int(round(r * 255)),
-                        int(round(g * 255)),
-                        int(round(b * 255)),
-                    ]
+                    if HSL and len(raw) < 3:
+                        # e.g. cut off by the end of the sheet, reported below
+                        rgba = raw
+                    elif HSL:
+                        # convert to rgb
+                        # h is 360 based (circle)
+                        h, s, l_ = raw[0] / 360.0, raw[1], raw[2]
+                        # ORDER h l s !!!
+                        r, g, b = colorsys.hls_to_rgb(h, l_, s)
+                        # back to 255 based
+                        rgba = [
+                            int(round(r * 255)),
+                            int(round(g * 255)),
+                            int(round(b * 255)),
+                        ]
 
-                    if len(raw) > 3:
-                        rgba.append(raw[3])
+                        if len(raw) > 3:
+                            rgba.append(raw[3])
 
-                else:
-                    # rgb, rgba
-                    rgba = raw
+                    else:
+                        # rgb, rgba
+                        rgba = raw
+                except (OverflowError, ValueError) as e:
+                    # a component too large for float arithmetic
+                    self._log.error('ColorValue: Component out of range: %s' % e)
+                    rgba = []
 
                 if len(rgba) < 4:
                     rgba.append(1.0)
